@@ -40,6 +40,9 @@ def op_list(lines, tracks):
     ops = [{"op": "fn", "tag": "A", "fail": None}, {"op": "fn", "tag": "B", "fail": None}]
     for k in range(len(cells)):
         ops.append({"op": "fn", "tag": "B", "fail": k})
+    # the callable may hand back note objects that ALREADY sit in the pattern (keep this cell) next to new ones
+    ops.append({"op": "fn", "tag": "B", "fail": None, "keep": "even"})
+    ops.append({"op": "fn", "tag": "A", "fail": None, "keep": "all"})
     # the callable may fail with ANY exception class -- also one that iteration machinery treats specially
     for k in sorted({0, len(cells) // 2, len(cells) - 1}):
         for exc in ("StopIteration", "IndexError", "KeyError", "GeneratorExit"):
@@ -70,13 +73,18 @@ def apply_op(pat, grid, op, lines, tracks):
             count[0] += 1
             if op["fail"] is not None and k == op["fail"]:
                 raise _exc(op)
+            if op.get("keep") == "all" or (op.get("keep") == "even" and k % 2 == 0):
+                return p.data[line][track]
             return mk(op["tag"], line, track)
 
         expect_fail = op["fail"] is not None
         if not expect_fail:
+            k2 = 0
             for l in range(lines):
                 for t in range(tracks):
-                    new[l][t] = cell_value(op["tag"], l, t)
+                    if not (op.get("keep") == "all" or (op.get("keep") == "even" and k2 % 2 == 0)):
+                        new[l][t] = cell_value(op["tag"], l, t)
+                    k2 += 1
         try:
             pat.set_via_fn(fn)
             raised = False
@@ -176,6 +184,15 @@ def run_history(lines, tracks, attached, hist, initial="dense"):
         pat.tracks = tracks
         pat.clear()
         grid = [[(0, 0, 0, 0, 0) for _t in range(tracks)] for _l in range(lines)]
+    elif initial == "foreign":
+        # contents as a file written by another program may hold them: note codes without a named command, velocities
+        # above 129 (the byte image accepts any byte) -- untouched cells keep them, edits around them still work
+        from struct import pack
+
+        codes = [125, 135, 255, 121, 141, 127]
+        pat.raw_data = b"".join(pack("<BBHHH", codes[(l * tracks + t) % 6], 130 + ((l + t) % 100), 1 + t, 0x0100 + l, t)
+                                for l in range(lines) for t in range(tracks))
+        grid = [[(codes[(l * tracks + t) % 6], 130 + ((l + t) % 100), 1 + t, 0x0100 + l, t) for t in range(tracks)] for l in range(lines)]
     elif initial == "untouched":
         # a freshly constructed pattern whose note grid has NEVER been read or written before the first bulk
         # edit (no `.data` / `.raw_data` access by the harness either): its content is all-empty cells
@@ -254,7 +271,7 @@ def _task(t):
     for first in ops[first_lo:first_hi]:
         for rest in itertools.chain.from_iterable(itertools.product(ops, repeat=d) for d in range(0, depth)):
             hist = [first] + list(rest)
-            for initial in ("dense", "sparse0", "sparse3", "untouched") + (("reshaped+", "reshaped-") if len(hist) == 1 else ()):
+            for initial in ("dense", "sparse0", "sparse3", "untouched") + (("reshaped+", "reshaped-", "foreign") if len(hist) == 1 else ()):
                 vs = run_history(lines, tracks, attached, hist, initial)
                 r["evals"] += 1
                 C.count(r, "histories")
